@@ -144,3 +144,15 @@ Definition check_case (c : case) : bool * bool :=
   (obs_list_eqb (model_obs h (c_replicas c) (c_probes c) (new val (c_replicas c) (c_probes c)) (c_ops c) (c_obs c))
                 (c_obs c),
    ok_trace (c_ops c) (c_obs c)).
+
+(* the model's ring after a history started from New(replicas, probes), and its answer to a Lookup *)
+Definition ring_after (h : list N -> N) (rp pp : nat) (ops : list (op val)) : ring val :=
+  fst (run h val zero_val (new val rp pp) ops).
+Definition answer (h : list N -> N) (rp pp : nat) (ops : list (op val)) (k : key) : lres val :=
+  snd (lookup h val zero_val (ring_after h rp pp ops) k).
+(* the same question asked of a ring built fresh by inserting the bindings fm in the given order *)
+Definition fresh_answer (h : list N -> N) (rp pp : nat) (fm : smap) (k : key) : lres val :=
+  snd (lookup h val zero_val (fresh h val rp pp fm) k).
+(* no operation of the history touches member k *)
+Definition untouched (k : key) (ops : list (op val)) : Prop :=
+  forall o, In o ops -> match o with OInsert k' _ | ORemove k' => k' <> k | _ => True end.
